@@ -789,4 +789,12 @@ w("../state/comments-before-jsx.jsx", "\n".join([
     "/* statement starts with JSX */", "<C>{baz()}</C>;", "/*#__PURE__*/", "<D/>;", "const c = <E>{", "  /* child lead */", "  <F>{q()}</F>", "}</E>;", "const d = cond ?", "  /* cons */", "  <G/> :", "  /* alt */", "  <H>{r()}</H>;",
     "export default (", "  /* @jsx notAPragmaHere */", "  <I a={", "    // attr value lead", "    <J/>", "  } />", ");",
 ]))
+
+# ---- V. the same few things again and again in one small module (the complement of grid/many: a memo is HIT on
+# repeats; a task parked between the two halves of a hit is what a table that is emptied meanwhile hurts)
+rep_lines = []
+for r in range(6):
+    rep_lines += [f"const a{r} = <div title=\"same title\" class=\"box\">same text\n   continued</div>;", f"const b{r} = <x-rep v-custom:arg_m={{v}} a=\"same title\">same text</x-rep>;", f"const c{r} = <Comp v-model:val_trim={{m}} label=\"same title\">{{k}}same text</Comp>;"]
+w("multi/repeats.jsx", "\n".join(rep_lines), '{"optimize":true,"customElementPatterns":["^x-"]}')
+w("multi/repeats-types.tsx", hdr + "type P = { a: string; b?: number }; type E = { (e: 'x'): void };\n" + "\n".join(f"const C{r} = defineComponent((p: P & {{ a: P['a'] }}, c: SetupContext<E>) => () => <div title=\"same title\">same text</div>);" for r in range(6)), '{"resolveType":true,"optimize":true}')
 print("generated under", os.path.normpath(root))
